@@ -19,3 +19,28 @@ Example ex_values :
   | None => []
   end = [2; 1; 1; 16; 20; 20; 16; 1073741840; 16; 32; 32; 1; 1; 1; 64; 1].
 Proof. vm_compute. reflexivity. Qed.
+
+(* ---- the text reader ---- *)
+From Coq Require Import String.
+From SudachiVerif Require Import Model.CharDefText.
+Definition ex_text : list N := bytes_of
+  "# comment
+DEFAULT 0 1 0
+0x0030..0x0039 NUMERIC
+0x0032 NUMERIC KANJINUMERIC # trailing KANJI
+  0x3041..0x3096	HIRAGANA
+0x0x41 ALPHA
+".
+Example ex_parse : read_character_definition ex_text =
+  POk [mkR 48 58 16; mkR 50 51 272; mkR 12353 12439 64; mkR 65 66 32].
+Proof. vm_compute. reflexivity. Qed.
+Example ex_err_reversed : read_character_definition (bytes_of "0x0039..0x0030 NUMERIC") = PErr.
+Proof. vm_compute. reflexivity. Qed.
+Example ex_err_surrogate : read_character_definition (bytes_of "0xD7FF KANJI") = PErr.
+Proof. vm_compute. reflexivity. Qed.
+Example ex_err_one_column : read_character_definition (bytes_of "0x0030") = PErr.
+Proof. vm_compute. reflexivity. Qed.
+Example ex_panic_overflow : read_character_definition (bytes_of "0xFFFFFFFF KANJI") = PPanic.
+Proof. vm_compute. reflexivity. Qed.
+Example ex_unmodelled : read_character_definition (bytes_of "0x30 KANJI|ALPHA") = PUnmodelled.
+Proof. vm_compute. reflexivity. Qed.
